@@ -445,17 +445,36 @@ def check_counted_fill(ctx):
                     par_ = pm_[id(cur_)]
                     if isinstance(par_, ast.For):
                         it_ = par_.iter
-                        runs = (isinstance(it_, ast.Call) and isinstance(it_.func, ast.Name) and it_.func.id == "range" and len(it_.args) == 1 and isinstance(it_.args[0], ast.Constant) and isinstance(it_.args[0].value, int) and it_.args[0].value >= 1) or (isinstance(it_, (ast.Tuple, ast.List)) and len(it_.elts) >= 1)
+                        lit_seq = lambda x_: isinstance(x_, (ast.Tuple, ast.List)) and len(x_.elts) >= 1
+                        runs = (
+                            (isinstance(it_, ast.Call) and isinstance(it_.func, ast.Name) and it_.func.id == "range" and len(it_.args) == 1 and isinstance(it_.args[0], ast.Constant) and isinstance(it_.args[0].value, int) and it_.args[0].value >= 1)
+                            or (isinstance(it_, ast.Call) and isinstance(it_.func, ast.Name) and it_.func.id == "range" and len(it_.args) in (2, 3) and all(isinstance(a_, ast.Constant) and isinstance(a_.value, int) for a_ in it_.args) and len(range(*[a_.value for a_ in it_.args])) >= 1)
+                            or lit_seq(it_)
+                            or (isinstance(it_, ast.Call) and isinstance(it_.func, ast.Name) and it_.func.id == "enumerate" and it_.args and lit_seq(it_.args[0]))
+                            or (isinstance(it_, ast.Call) and isinstance(it_.func, ast.Name) and it_.func.id == "zip" and it_.args and all(lit_seq(a_) for a_ in it_.args))
+                        )
                         first_ = par_.body[0] is cur_ or any(cur_ is b for b in par_.body) and not any(isinstance(x, (ast.Break, ast.Continue, ast.If, ast.Try)) for b in par_.body[: par_.body.index(cur_)] for x in ast.walk(b))
                         if runs and first_ and not par_.orelse:
                             st_ = par_
                     cur_ = par_
                 return st_
 
+            def loose(st_):
+                """The outermost inner loop (of any kind) that holds the store: for arrays that start from defined values
+                a record whose inner loop over its own words runs zero times is the file's business, not a skipped
+                record -- the clause is about `continue` / branches at the level of the record loop."""
+                cur_, out_ = st_, st_
+                while id(cur_) in pm_ and pm_[id(cur_)] is not n:
+                    cur_ = pm_[id(cur_)]
+                    if isinstance(cur_, ast.For) and not cur_.orelse:
+                        out_ = cur_
+                return out_
+
+            loose_all = [cfg.idx(loose(st_)) for _, st_ in stores]
             stores = [(a_, certain(st_)) for a_, st_ in stores]
             allst = [cfg.idx(st) for _, st in stores]
             where = f"{f.module.relpath}:{n.lineno}"
-            if body0 not in allst and not cfg.must_pass([head], allst, start=body0):
+            if body0 not in loose_all and not cfg.must_pass([head], loose_all, start=body0):
                 ctx.violate("R9", f"{f.name}: an iteration of `for {i} in range(...)` can complete without storing anything at index {i} ({', '.join(sorted({a for a, _ in stores}))}): the record count advances but row {i} stays unfilled", f, n, construct=f"counted loop over {i}: iteration without a store")
                 continue
             bad = []
